@@ -16,7 +16,7 @@ ATTRS = ["", "", ' style="color:red"', ' class="noprint"', ' class="navbox"', ' 
          ' style="height:100px;overflow:scroll"', ' class="metadata"', ' style="visibility:hidden"', ' class="thumb tright"']
 
 MARKUP = {
-    "link": ["[[", "]]", "[[A]]", "[[A|b]]", "[[:Category:X]]", "[[Category:X]]", "[[de:X]]", "[[:en:X]]", "[[File:a.png|", "[[Image:x.jpg|thumb|left|",
+    "link": ["[[File:a.png]]", "[[File:b.png|thumb|cap]]", "[[Image:c.jpg|20px]]", "[[File:d.svg|frame|left|x]]", "[[", "]]", "[[A]]", "[[A|b]]", "[[:Category:X]]", "[[Category:X]]", "[[de:X]]", "[[:en:X]]", "[[File:a.png|", "[[Image:x.jpg|thumb|left|",
              "thumb|", "100px|", "px", "[[#frag]]", "[[A#b|c]]", "[[/sub]]", "[[A]]s", "[[w:X]]"],
     "url": ["[http://x.org ", "[", "]", "http://a.b/c", "https://a/b?c=d&e", "//r.s/t", "[//r.s t]", "mailto:a@b.c", "[mailto:a@b.c m]", "ftp://f.g",
             "irc://i.j", "news:n.o", "[http://x.org]", "http://"],
@@ -63,6 +63,12 @@ MARKUP["trigger"] = [
     "\n{|\n|\n" + "* i\n" * 6 + "|\n" + "* j\n" * 7 + "|}",
     "\n{|\n|" + "word " * 1100 + "\n|}",
     "\n{|\n|\n== s ==\n" + "w " * 1100 + "\n|}",
+    "\n{|\n|" + ("\n\n" + "lorem ipsum " * 40) * 6 + "\n|b\n|}",
+    "\n{|\n\n== a ==\n\n|}\n| x", "\n{|\n== s ==\n|}\ntext\n\nmore", "<div>\n== h ==\n</div>\n\npara",
+    "{|\n|\n{|\n| " + "word " * 150 + "|| b\n|-\n| c || d\n|}\n|}\n",
+    '<div id="region_list"><center>\n{|\n|a\n|}\n</center></div>',
+    "\n{|\n|a\n|" + ("\n\n" + "dolor sit amet " * 30) * 8 + "\n|-\n|c||d\n|}",
+    "\n{|\n|" + "\n".join("* item %d %s" % (i, "text " * 20) for i in range(30)) + "\n|x\n|}",
     '\n{| class="navbox"\n|a\n|b\n|}', '\n{| class="mp-upper"\n|a\n|b\n|}', '\n{| class="infobox"\n|a\n|}',
     "<ref>[[A]] and [[A]]</ref>", "<ref name=n>x</ref><ref name=n/>", "<ref name=n/><ref name=n>late</ref>",
     "[[File:a.png|thumb|" + "caption " * 120 + "]]",
@@ -100,14 +106,47 @@ CLASSES = sorted(MARKUP)
 ALL = [(c, l) for c in CLASSES for l in MARKUP[c]]
 
 
+UNITS = ["px", "pt", "em", "%", "", "ex", "cm", "in", "mm", "pc", "px;", " px"]
+NUMS = ["0", "1", "12", "100", "200", "1.5", "-3", "99999", "abc", "", "1e3", "50"]
+
+
+@st.composite
+def style_value(draw):
+    """style attributes built from property/value/unit combinations (the cleaner and the writers parse these)"""
+    props = []
+    if draw(st.integers(0, 3)) == 0:
+        # the scroll-box rule looks at overflow together with a height in any unit
+        props.append("overflow:" + draw(st.sampled_from(["auto", "scroll"])))
+        props.append("height:" + draw(st.sampled_from(NUMS)) + draw(st.sampled_from(UNITS)))
+    for _ in range(draw(st.integers(1, 3))):
+        name = draw(st.sampled_from(["overflow", "height", "width", "position", "display", "float", "font-size", "visibility", "margin",
+                                     "border", "text-align", "max-height", "line-height", "padding", "clear", "background"]))
+        if name == "overflow":
+            val = draw(st.sampled_from(["auto", "scroll", "hidden", "visible"]))
+        elif name == "position":
+            val = draw(st.sampled_from(["absolute", "relative", "fixed", "static"]))
+        elif name == "display":
+            val = draw(st.sampled_from(["none", "block", "inline", "table-cell"]))
+        elif name in ("float", "text-align", "clear"):
+            val = draw(st.sampled_from(["left", "right", "center", "none", "both"]))
+        elif name == "visibility":
+            val = draw(st.sampled_from(["hidden", "visible"]))
+        else:
+            val = draw(st.sampled_from(NUMS)) + draw(st.sampled_from(UNITS))
+        props.append("%s:%s" % (name, val))
+    sep = draw(st.sampled_from([";", "; ", " ;"]))
+    return ' style="%s"' % sep.join(props)
+
+
 def tag_with_attr():
+    attr = st.one_of(st.sampled_from(ATTRS), style_value(), style_value())
     return st.tuples(st.sampled_from(["div", "span", "table", "td", "th", "tr", "p", "li", "ul", "ol", "font", "ref", "source", "gallery", "center",
                                       "blockquote", "h2", "caption", "pre", "b", "dl", "dd", "code", "sup"]),
-                     st.sampled_from(ATTRS)).map(lambda t: ("tagattr", "<%s%s>" % t))
+                     attr).map(lambda t: ("tagattr", "<%s%s>" % t))
 
 
 def table_attr_line():
-    return st.sampled_from(ATTRS).map(lambda a: ("table", "\n{|%s\n" % a))
+    return st.one_of(st.sampled_from(ATTRS), style_value()).map(lambda a: ("table", "\n{|%s\n" % a))
 
 
 def lexeme():
@@ -117,8 +156,16 @@ def lexeme():
     return st.one_of(by_class, by_class, by_class, by_class, st.sampled_from(ALL), tag_with_attr(), table_attr_line(), free)
 
 
-def soup(max_size):
-    return st.lists(lexeme(), min_size=1, max_size=max_size)
+@st.composite
+def soup(draw, max_size):
+    """list of (class, lexeme); some lexemes are repeated at other positions (two images on one line, two galleries
+    in one item, ... - defects that need two offenders under one ancestor)"""
+    lex = draw(st.lists(lexeme(), min_size=1, max_size=max_size))
+    if len(lex) < max_size and draw(st.integers(0, 2)) == 0:
+        for _ in range(draw(st.integers(1, 2))):
+            item = draw(st.sampled_from(lex))
+            lex.insert(draw(st.integers(0, len(lex))), item)
+    return lex
 
 
 WRAPPERS = [("<div>", "</div>"), ("<b>", "</b>"), ("<i>", "</i>"), ("<span>", "</span>"), ("<blockquote>", "</blockquote>"), ("<center>", "</center>"),
